@@ -603,6 +603,13 @@ func runC11() int {
 	for _, m := range wgen.Micros {
 		seeds = append(seeds, analyse(m.Name, m.Src))
 	}
+	for _, m := range c11RichSeeds {
+		if c11Compile(m.Src).accepted {
+			seeds = append(seeds, analyse(m.Name, m.Src))
+		} else {
+			r.Skip("rich seed program is not accepted (not used as a seed)")
+		}
+	}
 	f1 := wgen.F1()
 	for i := 0; i < f1.Count; i += 173 {
 		c := f1.At(i)
@@ -632,6 +639,8 @@ func runC11() int {
 	}
 	r.Extra("edits_per_rule", perRule)
 	r.ParallelFor(len(jobs), func(i int) { c11Check(r, jobs[i].s, jobs[i].e) })
+	r.Count("offenders_seed_edits", int64(len(jobs)))
+	runC11G(r)
 	if len(jobs) > 0 {
 		j := jobs[len(jobs)/3]
 		r.Sample(map[string]any{"seed": j.s.name, "rule": j.e.rule, "site_offset": j.e.site})
